@@ -68,7 +68,7 @@ class PathOracle:
                 sv = symvals_from_sample(env.decls, it['sample'])
                 if ctx.eps is not None: sv[list(ctx.eps.num.vars())[0]] = mpf(2.0 ** -52)
                 val = AT.valuation(sv)
-                if not all(x.evalf(val) for x in self.path) or not all(x.evalf(val, 1e-40) for x in ctx.facts):
+                if not all(x.evalf(val) for x in self.path) or not all(x.evalf(val, 1e-40, eq_only=True) for x in ctx.facts):
                     it['alive'] = False; continue
                 if c.evalf(val): t = True
                 else: f = True
@@ -90,7 +90,7 @@ class PathOracle:
                 sv = symvals_from_sample(env.decls, it['sample'])
                 if ctx.eps is not None: sv[list(ctx.eps.num.vars())[0]] = mpf(2.0 ** -52)
                 val = AT.valuation(sv)
-                if all(x.evalf(val) for x in self.path) and all(x.evalf(val, 1e-40) for x in ctx.facts):
+                if all(x.evalf(val) for x in self.path) and all(x.evalf(val, 1e-40, eq_only=True) for x in ctx.facts):
                     return dict(sample={d.name: it['sample'][d.name] for d in env.decls}, regimes=['pool'])
             except (ZeroDivisionError, KeyError, ValueError, TypeError):
                 continue
@@ -112,6 +112,19 @@ class PathOracle:
             for kk in (('gt', c.a.key()), ('gt', (-c.a).key())):
                 if self.cache.get(kk) is True:
                     self.cache[k] = False; return False
+        if c.op in ('gt', 'ge'):
+            # sign of the same expression already decided on this path: a > 0 / a < 0 settle both a > 0 and a >= 0 (the solver answers
+            # 'unknown' on such pairs for large polynomials within its time limit, which used to open contradictory paths)
+            ak, nk, g = c.a.key(), (-c.a).key(), self.cache.get
+            v = None
+            if g(('gt', ak)) is True or g(('ge', nk)) is False: v = True
+            elif g(('ge', ak)) is False or g(('gt', nk)) is True: v = False
+            elif c.op == 'gt' and g(('ge', nk)) is True: v = False
+            elif c.op == 'ge' and g(('gt', nk)) is False: v = True
+            if v is not None:
+                if k in self.prefix and self.prefix[k] != v: raise Infeasible()
+                self.cache[k] = v; self.implied += 1
+                return v
         if k in self.prefix:
             v = self.prefix[k]
             pt, pf = self._pool_eval(c)
@@ -612,8 +625,11 @@ def symvals_from_sample(decls, sample):
                 vals = [x / n, y / n, z / n, mpf(0)]
             else:
                 r = 1 - x * x - y * y - z * z
-                w = mpmath.sqrt(r) * (1 if w >= 0 else -1) if r >= 0 else mpf(0)
-                vals = [x, y, z, w]
+                if r >= 0:
+                    vals = [x, y, z, mpmath.sqrt(r) * (1 if w >= 0 else -1)]
+                else:                       # |w| below the rounding of x^2+y^2+z^2: keep its sign, scale all four (w = 0 with a non-unit
+                    n = mpmath.sqrt(x * x + y * y + z * z + w * w)      # (x, y, z) broke the relation w^2 = 1 - x^2 - y^2 - z^2 by 1e-16)
+                    vals = [x / n, y / n, z / n, w / n]
         for vid, v in zip(d.vids, vals): sv[vid] = v
     return sv
 
@@ -709,7 +725,7 @@ def find_witness(env, orc, ctx, seed, tries, eps_value):
             if ctx.eps is not None:
                 sv[list(ctx.eps.num.vars())[0]] = mpf(eps_value)
             val = AT.valuation(sv)
-            if all(c.evalf(val) for c in orc.path) and all(f.evalf(val, 1e-40) for f in ctx.facts):
+            if all(c.evalf(val) for c in orc.path) and all(f.evalf(val, 1e-40, eq_only=True) for f in ctx.facts):
                 return dict(sample=sample, regimes=list(combo))
         except (ZeroDivisionError, KeyError, ValueError):
             continue
